@@ -42,7 +42,8 @@ def observe_case(case):
         desc = describe(case)
     except Exception as e:   # rendering problem = machinery failure, reported as such
         return {'id': case['id'], 'desc': None, 'build': ['render-error', repr(e)], 'obs': []}
-    b = realrun.build(desc, include_source=cfg.get('include_source', False))
+    b = realrun.build(desc, include_source=cfg.get('include_source', False),
+                      per_case_timeout=20.0 * cfg.get('timeout_scale', 1))
     if b[0] != 'ok':
         return {'id': case['id'], 'desc': desc, 'build': list(b), 'obs': []}
     mod = b[1]
@@ -60,7 +61,8 @@ def observe_case(case):
             obs.append(['exc', type(e).__name__, 'no entry point: ' + str(e)[:100]])
             continue
         obs.append(realrun.call_parse(mod, fn, realrun.to_text(text, bm), pos, full,
-                                      spans=cfg.get('spans', False)))
+                                      spans=cfg.get('spans', False),
+                                      per_case_timeout=5.0 * cfg.get('timeout_scale', 1)))
     name = cfg.get('name')
     if name:
         sys.modules.pop(name, None)
@@ -113,14 +115,34 @@ def close_pool():
         _POOL = None
 
 
-def run_real(cases, fn='observe_case', hooks=False, batch=25):
-    """Observe `cases` in the worker pool; returns {id: observation}."""
+def _has_timeout(o):
+    return o['build'][0] == 'timeout' or any(x and x[0] == 'timeout' for x in o['obs'])
+
+
+def run_real(cases, fn='observe_case', hooks=False, batch=25, confirm_timeouts=True):
+    """Observe `cases` in the worker pool; returns {id: observation}.
+    A case that timed out is observed a second time, alone and with a six times
+    longer limit, so that a stall of the machine is never reported as a hang."""
     p = pool(hooks)
     batches = [(fn, cases[i:i + batch]) for i in range(0, len(cases), batch)]
     out = {}
     for res in p.imap_unordered(_work, batches):
         for o in res:
             out[o['id']] = o
+    if confirm_timeouts:
+        again = []
+        for c in cases:
+            o = out.get(c['id'])
+            if o is not None and _has_timeout(o):
+                c2 = dict(c)
+                cfg = dict(c.get('cfg') or {})
+                cfg['timeout_scale'] = 6
+                c2['cfg'] = cfg
+                again.append(c2)
+        if again:
+            for res in p.imap_unordered(_work, [(fn, [c]) for c in again]):
+                for o in res:
+                    out[o['id']] = o
     return out
 
 
